@@ -12,7 +12,7 @@ PROP = dict(
          'judged by the exhaustive-negamax / forced-result oracles; at every cancellation point the transposition table must be byte-identical to what it was when the flag was set (ttPut refuses writes). evaluations = cases replayed by the extracted model (3-7 k per '
          'position); the oracle count is input_distribution.cancel_points. Plus cancellations from a concurrent goroutine at random times.',
     assumptions=['no deadline, MaxEvals = 0', 'Seed != 0 (Analyze does not read the clock)',
-                 'data-race freedom is not a theorem: supporting evidence only (go build -race driver in the thorough tier)'],
+                 'data-race freedom is not a theorem: judged by the race detector only (go build -race driver cancelling ~480 searches from a concurrent goroutine in the quick tier, ~1 400 in the thorough tier; a report is a violation of class data-race)'],
 )
 
 MANIFEST = dict(
@@ -24,4 +24,4 @@ MANIFEST = dict(
          "implementation oracle checks EVERY cancellation point of each search against the depth-limited run, then the engine's later answers "
          "against exhaustive negamax.",
     ref='5.16', technique='Coq model with cancellation index + deterministic cancellation injection at every leaf + depth-limited-run oracle',
-    note="Data-race clause: not expressible as a theorem; -race run recorded as supporting evidence only.")
+    note="Data-race clause: not expressible as a theorem about this model; decided by a go build -race driver in both tiers (a report of the detector is reported as a violation).")
